@@ -317,7 +317,19 @@ def run(E: Engine, rep: Report, tier: str) -> dict:
             dur9, amp9 = _arg9(cp, 0, "duration"), _arg9(cp, 1, "amplitude")
             ok = dur9 is not None and amp9 is not None and any(t[0] == "call" and t[1][0] == "attr" and t[1][2] == "adjust_duration" for t in _sym.subterms(dur9)) and amp9[0] == "const" and isinstance(amp9[1], (int, float)) and float(amp9[1]) == 0.0
         rep.check(ok, "PASS", "_Schedule.enable_eom|buffer-pulse-adjusted-and-zero-amp", "EOM buffer pulse: adjust_duration(...) duration, literal 0.0 amplitude", f"EOM buffer pulse is built as {_sh9(pu9, 120) if pu9 is not None else '?'}", E.where(en, e.node))
-    rep.floor("PASS", 14)
+    # the pulse that is returned for scheduling is the pulse that was validated: when the duration is adjusted to the
+    # clock period both waveforms are re-sampled (change_duration), which changes peak, average and finiteness -- so the
+    # re-sampled pulse itself must be handed to validate_pulse, not only the pulse as given
+    vap = E.method(SEQ, "_validate_and_adjust_pulse")
+    Sv = _S9(E, vap)
+    validated = {_un9(l.value[2][0]) for l in Sv.log if l.kind == "call" and l.value[1][0] == "attr" and l.value[1][2] == "validate_pulse" and l.value[2]}
+    if not validated:
+        raise AnalysisError("anchor: Sequence._validate_and_adjust_pulse no longer calls <channel>.validate_pulse")
+    r_v = _un9(Sv.ret) if Sv.ret is not None else None
+    resampled = r_v is not None and any(t[0] == "call" and t[1][0] == "attr" and t[1][2] == "change_duration" for t in _sym.subterms(r_v))
+    rep.check(not resampled or r_v in validated, "PASS", "Sequence._validate_and_adjust_pulse|re-sampled-pulse-validated", "the returned (possibly re-sampled) pulse is an argument of validate_pulse",
+              f"_validate_and_adjust_pulse validates {[_sh9(v_, 40) for v_ in validated]} but returns `{_sh9(r_v, 80)}`, whose waveforms were re-sampled with change_duration: the pulse that is scheduled can exceed max_amp, fall below min_avg_amp or hold non-finite samples although the pulse as given passed", E.where(vap))
+    rep.floor("PASS", 15)
 
     # ----------------------------------------------------------- GUARD
     rows = load_table("guards_c01.json")["rows"]
@@ -327,7 +339,26 @@ def run(E: Engine, rep: Report, tier: str) -> dict:
     m = _has(r, "Q_d if Q_x % self.clock_period == 0 else Q_r")
     ok = m is not None and m["Q_r"][0] != "raise" and _is(m["Q_r"], "Q_d + self.clock_period - Q_d % self.clock_period", {"Q_d": m["Q_d"]}) is not None and _is(m["Q_d"], "int(duration)") is not None
     rep.check(ok, "GUARD", "Channel.validate_duration|round-only-when-not-multiple", "duration adjusted (not rejected) iff duration % clock_period != 0, up to the next multiple of the clock period", f"the clock-multiple adjustment `d if d % clock_period == 0 else d + clock_period - d % clock_period` is gone or now rejects: {_sh(r, 300)}", E.where(ch_vd))
-    rep.floor("GUARD", 13)
+    # ... and what is returned -- the duration that is scheduled -- is itself bounded by max_duration: for every
+    # alternative of the returned value there is a rejection `self.max_duration < <that value>`
+    from ..bounds import unwrap as _unw
+    from .symutil import branches as _brD, sh as _shD
+
+    Sd = _S(E, ch_vd)
+    bounded = []
+    for l in Sd.logged("raise"):
+        for x in _sym.conj_of(l.cond):
+            if x[0] == "cmp" and x[1] in ("Lt", "Gt"):
+                big, small = (x[3], x[2]) if x[1] == "Lt" else (x[2], x[3])
+                if small == ("attr", ("name", "self"), "max_duration"):
+                    bounded.append(_sym.subst(big, lambda t: _unw(t) if t[0] == "call" and t[1] == ("name", "int") else None))
+    for i_, (conds_, leaf_) in enumerate(_brD(r)) if r is not None else ():
+        if leaf_ is None or leaf_[0] == "raise":
+            continue
+        leaf_n = _sym.subst(leaf_, lambda t: _unw(t) if t[0] == "call" and t[1] == ("name", "int") else None)
+        rep.check(leaf_n in bounded, "GUARD", f"Channel.validate_duration|returned-duration<=max_duration|alt{i_}", "a value above max_duration is rejected before it is returned",
+                  f"validate_duration can return `{_shD(leaf_, 100)}` without comparing it with max_duration (compared: {[_shD(b_, 60) for b_ in bounded]}): the duration rounded up to the clock period exceeds the maximum that the channel refuses when asked for directly", E.where(ch_vd))
+    rep.floor("GUARD", 15)
 
     # ---------------------------------------------------------- FINITE
     found = {"amplitude": False, "detuning": False}
